@@ -21,6 +21,7 @@ from math import ceil, log2
 import numpy as np
 import scipy as sp
 from qiskit import QuantumCircuit, QuantumRegister, transpile
+from qiskit.exceptions import QiskitError
 from qiskit.circuit.library import RYGate, CZGate
 from qiskit.circuit.library import UnitaryGate, UCRYGate, UCRZGate, MCXGate, MCMT
 
@@ -47,7 +48,13 @@ def unitary(gate, decomposition="qsd", iso=0, apply_a2=True):
 
     circuit = build_unitary(gate, decomposition, iso)
     if decomposition == "qsd" and apply_a2:
-        return _apply_a2(circuit)
+        try:
+            return _apply_a2(circuit)
+        except QiskitError:
+            # The diagonal-merging optimisation (A.2) is optional: qiskit's two-qubit
+            # Weyl decomposition can fail on degenerate blocks. The unoptimised
+            # circuit implements the same operator.
+            return circuit
 
     return circuit
 
